@@ -19,8 +19,8 @@ COQ_STREAMS = {
 }
 COQ_RUNNER = 'bad_history / bad_group_history / bad_reduce'
 RULE = ('(a) random histories (length <= 8 quick, <= 20 thorough) of fit / recompute_edges(None | 0 | r) / load / threshold item edit / '
-        'burst-option item edit / attribute assignments (center_extrema, thresholds = {...}, burst_method together with its '
-        'dictionaries, find_extrema_kwargs, return_samples) on one real Bycycle object, both burst methods; constructor called '
+        'burst-option item edit / attribute assignments (center_extrema, thresholds = {...}, burst_kwargs = {...}, burst_method '
+        'together with its dictionaries, find_extrema_kwargs, return_samples) on one real Bycycle object, both burst methods; constructor called '
         'with every argument optional (Bycycle() with no argument, thresholds=None for both methods, partial threshold '
         'dictionaries, long and shorthand names mixed key by key); signals drawn from the run\'s seed. After every fit df_features '
         'is compared with compute_features on deep copies of the intended settings (arguments that were never given are not passed '
@@ -28,11 +28,17 @@ RULE = ('(a) random histories (length <= 8 quick, <= 20 thorough) of fit / recom
         'reduced thresholds; after every load with the loaded table; after every operation that replaces df_features attribute '
         'access is compared with the column for ALL columns; reductions are drawn inside the valid range, so no history is '
         'discarded; after the history the stored settings are compared with the model. '
-        '(b) random histories on one real BycycleGroup: fit of a 2-D array (axis 0 / None) or 3-D array (axis (0,1) / 0 / 1), re-fit '
-        'with another shape, threshold / burst-option item edits, recompute_edges; after EVERY operation models[i].df_features '
+        '(b) random histories on one real BycycleGroup: fit of a 2-D array (axis 0 / None) or 3-D array (axis (0,1) / 0 / 1; leading '
+        'dimensions mostly NOT square: (1,2) (1,3) (2,3) (2,1) (3,1) (3,2), some (1,1) (2,2)), re-fit with another shape, '
+        'threshold / burst-option item edits, ATTRIBUTE ASSIGNMENTS on the group (center_extrema, thresholds = a new dict, '
+        'burst_kwargs = a new dict, burst_method together with its dictionaries, find_extrema_kwargs, return_samples), '
+        'recompute_edges after fits of EVERY axis mode (consistency method); after EVERY operation models[i].df_features '
         '= df_features[i] and models[i].sig = sigs[i] by value for every position (and equal counts); after a fit comparison '
-        'with a fresh group; after recompute_edges comparison with the functional recomputation of every table; object identity '
-        'of the mirrored tables and the settings held by the models go into the model comparison only. '
+        'with a fresh group constructed with the CURRENT settings (so a fit after an assignment must use the assigned value); '
+        'after recompute_edges comparison of df_features AND of the model at every position with the functional recomputation '
+        'of the table of that position; object identity of the mirrored tables and the settings held by the models (which '
+        'follow an item edit at once, an attribute assignment only at the next fit) go into the model comparison only; '
+        'group-reassign/...: fit - assign 1-3 attributes - fit (same or another array) [- recompute_edges], 1-2 rounds. '
         '(c) decision boundaries of recompute_edges(r): thresholds, edits and reductions are decimal literals from the grid '
         '{0, .05, ..., 1} (so that the lowered threshold v - r carries binary64 residue in either direction), dictionaries are '
         'given with a shuffled insertion order; tables whose feature values sit EXACTLY on and one ulp around the lowered '
@@ -45,20 +51,27 @@ RULE = ('(a) random histories (length <= 8 quick, <= 20 thorough) of fit / recom
         '(d) the public method reduce_thresholds(r) of fresh objects / groups (grid decimals, random binary64 numbers, ints, '
         'thresholds=None, r=None) is compared key by key and bit by bit with the binary64 difference v - r in the model '
         'comparison only (third Coq stream, no oracle verdict). '
-        '(e) refit/...: fit, one strong threshold edit by item assignment, fit of the same recording again (1-3 times). '
+        '(e) refit/...: fit, ONE setting changed - a strong threshold edit by item assignment or an attribute assignment '
+        '(thresholds = a new dict, center_extrema, burst_kwargs = a new dict, find_extrema_kwargs, return_samples) - fit of '
+        'the same recording again (1-3 times). '
         'non-trivial = an object history with >= 2 fits and >= 1 edit in between, or a group history with a re-fit or a '
         'recomputation, or a reduce case with a non-zero reduction')
 ASSUMPTIONS = ['recompute_edges is only applied to consistency-method objects holding a table produced by consistency burst '
                'detection (the method is documented for them only) or a synthetic table of that form brought in with load; for '
-               'groups therefore only after axis=0 (2-D) / axis=(0,1) (3-D) fits',
+               'groups after consistency-method fits of any axis mode (the flattened-epoch tables carry the same columns); a '
+               'history in which the group recomputation and the functional recomputation of one of its tables raise the same '
+               'exception class is skipped',
                '"every *_threshold lowered by r" is read as the binary64 difference v - r of the stored threshold and the reduction '
                '(what a caller of the functional API computes); +0 and -0 are not told apart in the reduce_thresholds stream',
                'attribute assignments replace a dictionary by one with long key names (shorthand is a constructor feature); a change '
                'of burst_method is followed immediately by matching thresholds / burst_kwargs',
-               'group edits are item assignments on the group\'s dictionaries (shared with the models); replacing a dictionary object '
-               'of a fitted group is not exercised',
+               'group settings are changed by item assignments on the group\'s dictionaries (shared with the models of the last '
+               'fit) and by assigning a new value / a new dictionary to the attribute; the property says what the NEXT FIT yields '
+               '(the current settings); which thresholds a group recompute_edges uses between an assignment of `thresholds` and the '
+               'next fit is not stated, so such a recomputation (rare, marked stale) is run for the mirror clause and the model '
+               'comparison only, without a value verdict',
                'a history whose fit fails in the same way as compute_features on that signal (degenerate signal, C01 domain) is skipped']
-AMP_THRESHES = [(1, 2), (0.5, 1.5), (0.8, 1.2)]
+AMP_THRESHES = [(1, 2), (0.5, 1.5), (0.8, 1.2), (0.9, 1.1)]     # the narrow pairs find bursts in the ramp signals too
 FEKS = [None, {'boundary': 1}, {'boundary': 5}, {'filter_kwargs': {'n_cycles': 4}},
         {'boundary': 3, 'filter_kwargs': {'n_cycles': 2}}, {'pad': True, 'boundary': 2}]
 FEK_DEFAULT = {'filter_kwargs': {'n_cycles': 3}}
@@ -212,12 +225,15 @@ def _valid_reduction(rng, thr):
     return ['recompute', r, rng.choice(['none', 'zero']) if r == 0 else 'val']
 
 
-def _fit_id(rng, last=None):
+def _fit_id(rng, last=None, amp=False):
     """Signal id of a fit: the signal of the previous fit again (1 in 3 when there is one: a user edits a setting and
     re-fits the same recording), else a generated signal, or (1 in 4) a ramp signal whose amp_fraction values are grid
-    decimals."""
+    decimals.  For the amplitude method half of the fits take the sparse / bursty signals (ids 0, 1): on them the
+    dual-threshold detector finds bursts, so that the table depends on burst_kwargs and the thresholds."""
     if last is not None and rng.random() < 0.34:
         return last
+    if amp and rng.random() < 0.5:
+        return rng.randrange(2)
     return rng.randrange(N_PLAIN) if rng.random() < 0.75 else N_PLAIN + rng.randrange(N_RAMP)
 
 
@@ -240,7 +256,7 @@ def _gen_object_case(rng, maxlen):
     for _ in range(rng.randint(2, maxlen)):
         r = rng.random()
         if r < 0.33 or not ops:
-            last_fit = _fit_id(rng, last_fit)
+            last_fit = _fit_id(rng, last_fit, amp)
             ops.append(['fit', last_fit])
             fitted, df_cycles, fit_cycles = True, not amp, not amp
         elif r < 0.47 and not amp and (df_cycles or r < 0.40):
@@ -259,8 +275,11 @@ def _gen_object_case(rng, maxlen):
             ops.append(['edit_thr', k, v])
             thr[k] = v
         elif r < 0.72 and amp:
-            k = rng.choice(['amp_threshes', 'min_n_cycles'])
-            ops.append(['edit_bk', k, rng.randrange(len(AMP_THRESHES)) if k == 'amp_threshes' else rng.choice([1, 2, 4])])
+            if rng.random() < 0.35:
+                ops.append(['set_bk', _gen_bk(rng)])          # bm.burst_kwargs = {...}: a NEW dictionary
+            else:
+                k = rng.choice(['amp_threshes', 'min_n_cycles'])
+                ops.append(['edit_bk', k, rng.randrange(len(AMP_THRESHES)) if k == 'amp_threshes' else rng.choice([1, 2, 4])])
         elif r < 0.78:
             ops.append(['center', rng.random() < 0.5])
         elif r < 0.83:
@@ -278,18 +297,22 @@ def _gen_object_case(rng, maxlen):
             ops.append(['load', rng.randrange(4)])
             if fit_cycles is not None:
                 df_cycles = fit_cycles                    # `load` re-loads the last fitted table, whatever was loaded since
-    ops.append(['fit', _fit_id(rng, last_fit)])
+    ops.append(['fit', _fit_id(rng, last_fit, amp)])
     return {'kind': 'history/' + ('amp' if args.get('amp', False) else 'cycles'), 'args': args, 'ops': ops,
             'sigseed': rng.randrange(10 ** 6)}
 
 
 def _gen_refit_case(rng):
-    """The everyday history: fit, change ONE threshold by item assignment, fit the SAME recording again (1-3 times),
-    nothing else in between; the new value is far from the old one so that the labels usually change."""
+    """The everyday history: fit, change ONE setting, fit the SAME recording again (1-3 times), nothing else in between.
+    The change is an item assignment on the thresholds (the new value far from the old one, so that the labels usually
+    change) or - half of the rounds - an ATTRIBUTE assignment: thresholds = a new dictionary with one value changed,
+    center_extrema flipped, burst_kwargs = a new dictionary (amplitude method), find_extrema_kwargs, return_samples."""
     args = _gen_args(rng)
     amp = args.get('amp', False)
     thr = _expand(args['thr']) if 'thr' in args else dict(AMP_DEF if amp else CYC_DEF)
-    k0 = _fit_id(rng)
+    center = args.get('center', True)
+    rs = args.get('rs', True)
+    k0 = _fit_id(rng, None, amp)
     ops = [['fit', k0]]
     for _ in range(rng.randint(1, 3)):
         if amp:
@@ -299,8 +322,26 @@ def _gen_refit_case(rng):
             k = rng.choice([nm + '_threshold' for nm in CYC_NAMES] + ['min_n_cycles'])
             pool = [0, 250, 500, 750, 900] if k.endswith('threshold') else [1, 2, 3, 5]
         v = rng.choice([x for x in pool if x != thr.get(k)])
-        ops.append(['edit_thr', k, v])
-        thr[k] = v
+        q = rng.random()
+        cut = (0.4, 0.55, 0.62) if amp else (0.5, 0.72, 0.84)
+        if q < cut[0]:
+            ops.append(['edit_thr', k, v])
+            thr[k] = v
+        elif q < cut[1]:
+            thr = dict(thr)
+            thr[k] = v
+            ops.append(['set_thr', dict(thr)])
+        elif q < cut[2]:
+            center = not center
+            ops.append(['center', center])
+        elif q < 0.9 and amp:
+            ops.append(['set_bk', rng.choice([{'amp_threshes': 1}, {'amp_threshes': 2}, {'amp_threshes': 3}, {'amp_threshes': 0},
+                                              {'min_n_cycles': rng.choice([1, 2, 5])}, {'amp_threshes': 2, 'min_n_cycles': 1}])])
+        elif q < 0.95:
+            ops.append(['set_fek', rng.choice([1, 2, 3, 4])])
+        else:
+            rs = not rs
+            ops.append(['set_rs', rs])
         ops.append(['fit', k0])
     return {'kind': 'refit/' + ('amp' if amp else 'cycles'), 'args': args, 'ops': ops, 'sigseed': rng.randrange(10 ** 6)}
 
@@ -353,39 +394,83 @@ def _boundary_thr(rng, r):
     return _shuffled(rng, thr)
 
 
+# leading dimensions of 3-D arrays: square, n0 < n1 and n0 > n1, size-1 dimensions; at most 6 positions (see _arr)
+SHAPES3 = [(1, 1), (2, 2), (1, 2), (1, 3), (2, 3), (2, 1), (3, 1), (3, 2)]
+SH3 = ('g3', 'g3ax0', 'g3ax1')
+
+
+def _gen_shape(rng, kinds=('rows', 'rows', 'flat', 'g3', 'g3', 'g3ax0', 'g3ax1')):
+    """(shape kind, n0, n1): a 2-D array (n1 None) or a 3-D array whose leading dimensions are mostly NOT square."""
+    sh = rng.choice(kinds)
+    if sh in SH3:
+        n0, n1 = rng.choice(SHAPES3[2:] if rng.random() < 0.8 else SHAPES3[:2])
+        return sh, n0, n1
+    return sh, rng.choice([1, 2, 3]), None
+
+
 def _gen_group_boundary_case(rng):
-    """Group counterpart of _gen_boundary_case: ramp rows (axis 0 / (0,1) fits), recompute_edges(r) with r from the grid."""
+    """Group counterpart of _gen_boundary_case: ramp rows (2-D axis 0 / 3-D fits of every axis mode, n0 != n1 included),
+    recompute_edges(r) with r from the grid."""
     r = rng.choice([x for x in GRID if 50 <= x <= 600])
     args = {'thr': _boundary_thr(rng, r)}
     if rng.random() < 0.6:
         args['center'] = rng.random() < 0.5
     gops = []
     if rng.random() < 0.4:                                     # a fit of another shape first
-        sh = rng.choice(['rows', 'flat', 'g3', 'g3ax0', 'g3ax1'])
-        gops.append(['gfit', _arr_id(rng), sh, rng.choice([1, 2, 3]), rng.choice([1, 2]) if sh.startswith('g3') else None])
-    sh = rng.choice(['rows', 'g3'])
-    gops.append(['gfit', N_ARR_PLAIN + rng.randrange(N_ARR_RAMP), sh, rng.choice([1, 2, 3]), rng.choice([1, 2]) if sh == 'g3' else None])
+        gops.append(['gfit', _arr_id(rng)] + list(_gen_shape(rng)))
+    gops.append(['gfit', N_ARR_PLAIN + rng.randrange(N_ARR_RAMP)] + list(_gen_shape(rng, ('rows', 'g3', 'g3', 'g3', 'g3ax0', 'g3ax1'))))
     gops.append(['grecompute', r, 'val'])
     return {'kind': 'group-boundary/cycles', 'args': args, 'gops': gops, 'sigseed': rng.randrange(10 ** 6)}
+
+
+def _gen_group_assign(rng, amp, thr):
+    """One attribute assignment (or, for burst_method, the block that keeps the settings a valid combination) on a
+    group: returns (gops, amp, thresholds bookkeeping, thresholds dictionary replaced?)."""
+    q = rng.random()
+    if q < 0.25:
+        return [['gset_center', rng.random() < 0.5]], amp, thr, False
+    if q < 0.55:
+        new = _expand(_gen_thr_amp(rng, rng.random() < 0.3) if amp else _gen_thr_cycles(rng, rng.random() < 0.3))
+        return [['gset_thr', dict(new)]], amp, new, True
+    if q < 0.68:
+        return [['gset_fek', rng.randrange(len(FEKS))]], amp, thr, False
+    if q < 0.78:
+        return [['gset_rs', rng.random() < 0.6]], amp, thr, False
+    if q < 0.86 and amp:
+        return [['gset_bk', _gen_bk(rng)]], amp, thr, False
+    amp = not amp
+    new = _expand(_gen_thr_amp(rng, False) if amp else _gen_thr_cycles(rng, rng.random() < 0.3))
+    return [['gset_method', amp, dict(new), _gen_bk(rng) if amp else {}]], amp, new, True
 
 
 def _gen_group_case(rng, maxlen):
     args = _gen_args(rng)
     amp = args.get('amp', False)
     thr = _expand(args['thr']) if 'thr' in args else dict(AMP_DEF if amp else CYC_DEF)
+    mthr = thr                 # thresholds the MODELS of the last fit hold: the same dictionary until the group's is replaced
     gops = []
-    rc_ok = False
+    rc_ok = False              # the group holds consistency-method tables and its models the group's thresholds
+    rc_stale = False           # ... the models hold an OLDER thresholds dictionary than the group (recomputation not judged)
     for step in range(rng.randint(2, maxlen)):
         r = rng.random()
-        if r < 0.4 or not gops:
-            sh = rng.choice(['rows', 'rows', 'flat', 'g3', 'g3ax0', 'g3ax1'])
-            n0 = rng.choice([1, 2, 3])
-            n1 = rng.choice([1, 2]) if sh.startswith('g3') else None
-            gops.append(['gfit', _arr_id(rng), sh, n0, n1])
-            rc_ok = (not amp) and sh in ('rows', 'g3')
-        elif r < 0.65 and rc_ok:
+        if r < 0.36 or not gops:
+            gops.append(['gfit', _arr_id(rng)] + list(_gen_shape(rng)))
+            mthr = thr
+            rc_ok, rc_stale = (not amp), False
+        elif r < 0.58 and rc_ok:
             gops.append(['g' + x if i == 0 else x for i, x in enumerate(_valid_reduction(rng, thr))])
-        elif r < 0.9 or not amp:
+        elif r < 0.61 and rc_stale:
+            gops.append(['g' + x if i == 0 else x for i, x in enumerate(_valid_reduction(rng, mthr))] + ['stale'])
+        elif r < 0.74:
+            ops, amp2, thr2, replaced = _gen_group_assign(rng, amp, thr)
+            gops.extend(ops)
+            if replaced:
+                if mthr is thr:
+                    mthr = dict(thr)                  # the models keep the old dictionary as it is now
+                rc_stale = (rc_ok or rc_stale) and amp2 == amp and not amp
+                rc_ok = False
+            amp, thr = amp2, thr2
+        elif r < 0.93 or not amp:
             if amp:
                 k = rng.choice(['burst_fraction_threshold', 'min_n_cycles'])
                 v = rng.choice([200, 500, 1000]) if k.endswith('threshold') else rng.choice([1, 2, 3, 4])
@@ -393,11 +478,31 @@ def _gen_group_case(rng, maxlen):
                 k = rng.choice([nm + '_threshold' for nm in CYC_NAMES] + ['min_n_cycles'])
                 v = _grid(rng, 800) if k.endswith('threshold') else rng.choice([1, 2, 3])
             gops.append(['gedit_thr', k, v])
-            thr[k] = v
+            thr[k] = v                                # reaches the models iff they share the dictionary (mthr is thr)
         else:
             k = rng.choice(['amp_threshes', 'min_n_cycles'])
             gops.append(['gedit_bk', k, rng.randrange(len(AMP_THRESHES)) if k == 'amp_threshes' else rng.choice([1, 2, 4])])
-    return {'kind': 'group/' + ('amp' if amp else 'cycles'), 'args': args, 'gops': gops, 'sigseed': rng.randrange(10 ** 6)}
+    return {'kind': 'group/' + ('amp' if args.get('amp', False) else 'cycles'), 'args': args, 'gops': gops, 'sigseed': rng.randrange(10 ** 6)}
+
+
+def _gen_group_reassign_case(rng):
+    """The group counterpart of refit/...: fit, ASSIGN new values to settings attributes, fit again (the same array or
+    another one, often of another shape), sometimes followed by recompute_edges: the second fit must run with the
+    attribute values in force when it is called."""
+    args = _gen_args(rng)
+    amp = args.get('amp', False)
+    thr = _expand(args['thr']) if 'thr' in args else dict(AMP_DEF if amp else CYC_DEF)
+    first = ['gfit', _arr_id(rng)] + list(_gen_shape(rng))
+    gops = [first]
+    for _ in range(rng.randint(1, 2)):
+        for _ in range(rng.randint(1, 3)):
+            ops, amp, thr, _rep = _gen_group_assign(rng, amp, thr)
+            gops.extend(ops)
+        gops.append(list(first) if rng.random() < 0.5 else ['gfit', _arr_id(rng)] + list(_gen_shape(rng)))
+        if not amp and rng.random() < 0.5:
+            gops.append(['g' + x if i == 0 else x for i, x in enumerate(_valid_reduction(rng, thr))])
+    return {'kind': 'group-reassign/' + ('amp' if args.get('amp', False) else 'cycles'), 'args': args, 'gops': gops,
+            'sigseed': rng.randrange(10 ** 6)}
 
 
 def _gen_reduce_case(rng):
@@ -442,12 +547,14 @@ def cases(rng, tier):
         out.append(_gen_object_case(rng, maxlen))
     for _ in range(45 if quick else 400):
         out.append(_gen_group_case(rng, 7 if quick else 14))
-    for _ in range(16 if quick else 160):
+    for _ in range(24 if quick else 240):
         out.append(_gen_refit_case(rng))
     for _ in range(40 if quick else 400):
         out.append(_gen_boundary_case(rng))
     for _ in range(12 if quick else 100):
         out.append(_gen_group_boundary_case(rng))
+    for _ in range(16 if quick else 160):
+        out.append(_gen_group_reassign_case(rng))
     for _ in range(40 if quick else 400):
         out.append(_gen_reduce_case(rng))
     return out
@@ -764,6 +871,10 @@ def run_impl(c):
                 want.user_thr = dict(want.thr)
                 want.bk = dict(_bk_py(op[3]))
                 want.user_bk = dict(want.bk)
+            elif op[0] == 'set_bk':
+                bm.burst_kwargs = _bk_py(op[1])
+                want.bk = dict(_bk_py(op[1]))
+                want.user_bk = dict(want.bk)
             elif op[0] == 'set_fek':
                 bm.find_extrema_kwargs = copy.deepcopy(FEKS[op[1]]) if FEKS[op[1]] is not None else copy.deepcopy(FEK_DEFAULT)
                 want.fek = op[1]
@@ -877,15 +988,46 @@ def _run_group(c):
             elif op[0] == 'grecompute':
                 before = [d.copy() for d in _flat(bg.df_features, three_d)]
                 r = op[1] / 1000.0
-                bg.recompute_edges({'none': None, 'zero': 0, 'val': r}[op[2]])
-                after = _flat(bg.df_features, three_d)
+                rarg = {'none': None, 'zero': 0, 'val': r}[op[2]]
+                stale = len(op) > 3 and op[3] == 'stale'
                 red = want.reduced(r)
-                if len(after) != len(before) or not all(_same(x, recompute_edges(y, dict(red))) for x, y in zip(after, before)):
-                    problems.append('group recompute_edges(%r): a table differs from the functional recomputation with thresholds %r'
-                                    % ({'none': None, 'zero': 0, 'val': r}[op[2]], red))
-                for y in before:
-                    on, flips = _sensitivity(y, red)
-                    sens = [sens[0] + 1, sens[1] + on, sens[2] + flips]
+                # the functional recomputation of the table at EVERY position (row-major), with the current thresholds - r
+                refs, ref_err = [], None
+                if not stale:
+                    for y in before:
+                        try:
+                            refs.append(recompute_edges(y, dict(red)))
+                        except Exception as e2:
+                            ref_err = exc_kind(e2)
+                            break
+                try:
+                    bg.recompute_edges(rarg)
+                except Exception as e:
+                    if ref_err is not None and exc_kind(e) == ref_err:
+                        return {'skip': 'group recompute_edges and the functional recomputation both raise %s on a table of this fit' % ref_err}
+                    raise
+                after = _flat(bg.df_features, three_d)
+                if stale:
+                    pass        # thresholds re-assigned since the fit: which thresholds apply is not stated; mirror clause only
+                elif ref_err is not None:
+                    problems.append('group recompute_edges(%r) returned, but the functional recomputation of a table raises %s' % (rarg, ref_err))
+                elif len(after) != len(before):
+                    problems.append('group recompute_edges(%r): %d tables afterwards, %d before' % (rarg, len(after), len(before)))
+                else:
+                    models = _flat(bg.models, three_d)
+                    for p_, (x, ref) in enumerate(zip(after, refs)):
+                        where = '[%d][%d]' % divmod(p_, arr.shape[1]) if three_d else '[%d]' % p_
+                        if not _same(x, ref):
+                            problems.append('group recompute_edges(%r): df_features%s (array of leading shape %s) differs from the functional '
+                                            'recomputation of that table with thresholds %r' % (rarg, where, list(arr.shape[:-1]), red))
+                            break
+                        if p_ < len(models) and not _same(models[p_].df_features, ref):
+                            problems.append('group recompute_edges(%r): models%s.df_features (array of leading shape %s) differs from the '
+                                            'functional recomputation of that table with thresholds %r' % (rarg, where, list(arr.shape[:-1]), red))
+                            break
+                    for y in before:
+                        on, flips = _sensitivity(y, red)
+                        sens = [sens[0] + 1, sens[1] + on, sens[2] + flips]
             elif op[0] == 'gedit_thr':
                 v = op[2] / 1000.0 if op[1] != 'min_n_cycles' else op[2]
                 bg.thresholds[op[1]] = v
@@ -898,6 +1040,36 @@ def _run_group(c):
                     want.bk = {}
                 want.bk[op[1]] = v
                 want.user_bk[op[1]] = v
+            # attribute assignments on the group: the next fit must run with these values
+            elif op[0] == 'gset_center':
+                want.center = op[1]
+                want.given['center'] = True
+                bg.center_extrema = 'peak' if op[1] else 'trough'
+            elif op[0] == 'gset_thr':
+                bg.thresholds = _shuffled(_random.Random(c['sigseed'] + len(op[1])), _thr_py(op[1]))
+                want.thr = _thr_py(op[1])
+                want.user_thr = dict(want.thr)
+            elif op[0] == 'gset_bk':
+                bg.burst_kwargs = _bk_py(op[1])
+                want.bk = dict(_bk_py(op[1]))
+                want.user_bk = dict(want.bk)
+            elif op[0] == 'gset_method':
+                bg.burst_method = 'amp' if op[1] else 'cycles'
+                bg.thresholds = _thr_py(op[2])
+                bg.burst_kwargs = _bk_py(op[3])
+                want.amp = op[1]
+                want.given['amp'] = True
+                want.thr = _thr_py(op[2])
+                want.user_thr = dict(want.thr)
+                want.bk = dict(_bk_py(op[3]))
+                want.user_bk = dict(want.bk)
+            elif op[0] == 'gset_fek':
+                bg.find_extrema_kwargs = copy.deepcopy(FEKS[op[1]]) if FEKS[op[1]] is not None else copy.deepcopy(FEK_DEFAULT)
+                want.fek = op[1]
+            elif op[0] == 'gset_rs':
+                bg.return_samples = op[1]
+                want.rs = op[1]
+                want.given['rs'] = True
             if arr is not None:
                 p = _mirror_problem(bg, arr, three_d)
                 if p:
@@ -966,6 +1138,19 @@ def kind_of(c, o):
         return k + ('/default-thr' if c['thr'] is None else '') + ('/err' if 'reduce_err' in o else '')
     if 'thr' not in c['args']:
         k += '/default-thr'
+    if 'gops' in c:
+        # evidence: attribute assignments between fits; edge recomputation on 3-D groups whose leading dimensions differ
+        fits = [i for i, op in enumerate(c['gops']) if op[0] == 'gfit']
+        if len(fits) >= 2 and any(op[0].startswith('gset') for op in c['gops'][fits[0]:fits[-1]]):
+            k += '/assign-between-fits'
+        last, rc3 = None, set()
+        for op in c['gops']:
+            if op[0] == 'gfit':
+                last = op
+            elif op[0] == 'grecompute' and last is not None and last[4] is not None:
+                rc3.add('lt' if last[3] < last[4] else 'gt' if last[3] > last[4] else 'eq')
+        if rc3:
+            k += '/rc3d-n0-' + '+'.join(sorted(rc3)) + '-n1'
     sens = o.get('sens') or [0, 0, 0]
     if sens[2]:
         k += '/labels-depend-on-last-bits-of-lowered-threshold'
@@ -1023,6 +1208,18 @@ def coq_case(c, o):
                 ops.append('GEditThr "%s" %d' % (op[1], op[2]))
             elif op[0] == 'gedit_bk':
                 ops.append('GEditBk "%s" %d' % (op[1], op[2]))
+            elif op[0] == 'gset_center':
+                ops.append('GSetCenter %s' % coqio.B(op[1]))
+            elif op[0] == 'gset_thr':
+                ops.append('GSetThr %s' % _dict(op[1]))
+            elif op[0] == 'gset_bk':
+                ops.append('GSetBk %s' % _dict(op[1]))
+            elif op[0] == 'gset_method':
+                ops.extend(['GSetMethod %s' % coqio.B(op[1]), 'GSetThr %s' % _dict(op[2]), 'GSetBk %s' % _dict(op[3])])
+            elif op[0] == 'gset_fek':
+                ops.append('GSetFek %d' % op[1])
+            elif op[0] == 'gset_rs':
+                ops.append('GSetRs %s' % coqio.B(op[1]))
         inp = '(%s, %s)' % (_cargs(c['args']), coqio.lst(ops) if ops else 'nil')
         if 'err' in o:
             return inp, '(Err %s)' % _ERR.get(o['err'], 'EOther')
@@ -1048,6 +1245,8 @@ def coq_case(c, o):
             ops.append('OSetThr %s' % _dict(op[1]))
         elif op[0] == 'set_method':
             ops.extend(['OSetMethod %s' % coqio.B(op[1]), 'OSetThr %s' % _dict(op[2]), 'OSetBk %s' % _dict(op[3])])
+        elif op[0] == 'set_bk':
+            ops.append('OSetBk %s' % _dict(op[1]))
         elif op[0] == 'set_fek':
             ops.append('OSetFek %d' % op[1])
         elif op[0] == 'set_rs':
